@@ -240,10 +240,46 @@ def case_reject(rng: Any, ctx: Ctx, index: int) -> None:
                   'blocks with mismatching shared structures accepted', a=dense.struct_str(u[a]), b=dense.struct_str(u[b]))
 
 
+def case_chain(rng: Any, ctx: Ctx, index: int) -> None:
+    """A chain with a block pair that cannot be paired block by block followed by a pair of the same classes that can."""
+    from .. import patterns
+    from .c07 import residue
+    tag, ops = generate(lambda: patterns.p_blocks_after_mismatch(rng))
+    if any(dense.size_of(o.in_structure()) > 40 or dense.size_of(o.out_structure()) > 40 for o in ops):
+        return
+    LOG.case_key(f'product:{tag}:{type(ops[-1].blocks).__name__}:arity{len(ops[-1].block_leaves)}', True)
+
+    def j() -> None:
+        from furax._base.core import CompositionOperator
+        e = CompositionOperator(list(ops))
+        r = e.reduce()
+        LOG.evaluated('C10.products')
+        LOG.count('C10.products', tag)
+        rops = list(r.operands) if isinstance(r, CompositionOperator) else [r]
+        for a, b in zip(rops[:-1], rops[1:]):
+            if residue(a, b) == 'blocks':
+                LOG.violation('C10', 'C10.products', f'{tag}/not-simplified', 'adjacent block operators with the same layout remain in the reduced chain',
+                              before=[dense.skeleton(o) for o in ops], after=[dense.skeleton(o) for o in rops])
+                return
+        if not (dense.struct_eq_loose(r.in_structure(), e.in_structure()) and dense.struct_eq_loose(r.out_structure(), e.out_structure())):
+            LOG.violation('C10', 'C10.products', f'{tag}/structures', 'the reduced chain has other structures', before=[dense.skeleton(o) for o in ops])
+            return
+        exp = None
+        for o in ops:
+            m = dense.matrix(o)
+            exp = m if exp is None else exp @ m
+        ok, err = dense.close(exp, dense.matrix(r), dense.tol_for(*ops))
+        if not ok:
+            LOG.violation('C10', 'C10.products', f'{tag}/matrix', f'rel err {err:.3g}', before=[dense.skeleton(o) for o in ops])
+    guarded('C10.products', j)
+
+
 def case_products(rng: Any, ctx: Ctx, index: int) -> None:
     """(A @ B).reduce() for adjacent block operators with the same layout."""
     from .. import patterns
     gen.begin_case(rng)
+    if rng.integers(4) == 0:
+        return case_chain(rng, ctx, index)
     tag, (left, right) = generate(lambda: patterns.p_blocks(rng))
     if dense.size_of(left.out_structure()) > 40 or dense.size_of(right.in_structure()) > 40:
         return
